@@ -205,6 +205,40 @@ func (p *pcall) judgeAtReturn(c *core.Ctx, how string) {
 }
 
 // stillIntact: C07 — the returned value and the caller's arguments are what they were.
+// ownerEdits: the caller overwrites, in place, a value the library returned to it (a message it owns: the bytes of
+// its event stream; or it reuses the message as the target of a decode).  The snapshot follows the edit; what must
+// not follow it is anything the library builds afterwards.
+func (p *pcall) ownerEdits(r *rand.Rand) { p.ownerEditsHow(r.Intn(2) == 0) }
+
+func (p *pcall) ownerEditsHow(decodeInto bool) {
+	if p.err != nil || p.bad || p.kind == "get_chunk" || p.kind == "packed_bytes" {
+		return
+	}
+	switch {
+	case p.msg != nil && decodeInto:
+		// the message becomes the receiver of an incoming one
+		two := 2
+		in := &protocol.PackedForwardMessage{Tag: "incoming", EventStream: []byte{0x92, 0x05, 0x80, 0x92, 0x06, 0x80}, Options: &protocol.MessageOptions{Size: &two}}
+		b, _ := in.MarshalMsg(nil)
+		if _, err := p.msg.UnmarshalMsg(b); err != nil {
+			return
+		}
+		p.tag = p.msg.Tag
+		p.snapStr = append([]byte{}, p.msg.EventStream...)
+		p.snapOpt = optRender(p.msg.Options)
+	case p.msg != nil:
+		for i := range p.msg.EventStream {
+			p.msg.EventStream[i] ^= 0xff
+		}
+		p.snapStr = append([]byte{}, p.msg.EventStream...)
+	default:
+		for i := range p.bits {
+			p.bits[i] ^= 0xff
+		}
+		p.snapStr = append([]byte{}, p.bits...)
+	}
+}
+
 func (p *pcall) stillIntact() (string, bool) {
 	if p.kind == "get_chunk" {
 		if p.chunk != p.chunkSnap {
@@ -256,8 +290,40 @@ func C03(c *core.Ctx) {
 			c.Hist(fmt.Sprintf("sequential %s entries=%d payload-class=%d", p.kind, len(p.es), len(p.payload)/1000))
 			c.Distinct(fmt.Sprint(h, i, p.kind, len(p.es), len(p.payload)))
 			p.judgeAtReturn(c, fmt.Sprintf("call %d of a history of %d", i+1, n))
+			if r.Intn(3) == 0 {
+				p.ownerEdits(r) // the caller does what it likes with a value it was given: nothing built later depends on it
+			}
 			if h < 2 && i == 0 {
 				c.Sample(map[string]interface{}{"kind": p.kind, "entries": len(p.es), "stream": trunc(hx(p.snapStr), 120), "options": p.snapOpt})
+			}
+		}
+	}
+	// the smallest inputs (nothing to pack, nothing to compress: the place for a precomputed or shared result), each
+	// built, handed to an owner who overwrites it or reuses it as a decode target, and built again
+	for _, kind := range []string{"packed", "compressed", "compressed_bytes", "marshal_packed"} {
+		for _, size := range []int{0, 1} {
+			for _, decodeInto := range []bool{false, true} {
+				mk := func() *pcall {
+					p := genPcall(r, false)
+					p.kind, p.bad = kind, false
+					p.es = p.es[:0]
+					p.payload = make([]byte, size)
+					if size > 0 { // one entry / one byte
+						p.es = []gen.Entry{{Sec: 5, Nsec: 6, Rec: &gen.V{K: 'M', MK: [][]byte{[]byte("k")}, A: []*gen.V{gen.Str([]byte("v"))}}}}
+					}
+					p.el = gen.EntriesToGo(r, p.es)
+					p.elSnap = gen.RenderEntries(gen.EntriesFromGo(p.el), false)
+					p.paySnap = append([]byte{}, p.payload...)
+					return p
+				}
+				for round := 0; round < 3; round++ {
+					p := mk()
+					p.run()
+					c.Eval()
+					c.Hist("smallest inputs, owner edits between builds")
+					p.judgeAtReturn(c, fmt.Sprintf("%s of %d entries / %d payload bytes, build %d (earlier results were overwritten by their owner)", kind, len(p.es), size, round+1))
+					p.ownerEditsHow(decodeInto)
+				}
 			}
 		}
 	}
@@ -364,6 +430,9 @@ func C07(c *core.Ctx) {
 				}
 			}
 			c.Hist(fmt.Sprintf("history step %s", p.kind))
+			if r.Intn(4) == 0 {
+				held[r.Intn(len(held))].ownerEdits(r)
+			}
 		}
 		c.Distinct(fmt.Sprint(h, names))
 		if h < 2 {
